@@ -270,6 +270,7 @@ class DeformationContext(DisplacementContext):
         return {
             **super().to_dict(),
             "pressure": self.pressure,
+            "external_stress": self.external_stress,
             "last_cell": self.last_cell,
         }
 
